@@ -334,6 +334,31 @@ fn overflow_boundary() {
             }
         }
     }
+    // supplies that only *announce* their length (exact-size iterators of up to usize::MAX items),
+    // onto empty and already loaded stacks, bounded and unbounded: an overflow error, never a
+    // panic or an attempt to reserve what was announced
+    for (what, loaded, cap) in [("empty bounded", 0usize, 5usize), ("loaded bounded", 2, 5), ("loaded unbounded", 3, usize::MAX), ("loaded, nearly unbounded", 1, usize::MAX - 1)] {
+        for announce in [usize::MAX, usize::MAX - 1, usize::MAX - loaded, usize::MAX / 2 + 1, 6] {
+            cases += 1;
+            let fits = loaded.checked_add(announce).is_some_and(|t| t <= cap);
+            if fits {
+                continue; // would really have to materialise the values
+            }
+            let r = std::panic::catch_unwind(|| {
+                let b = PushState::builder().with_max_stack_size(cap).with_instruction_step_limit(1).with_int_values((0..loaded as i64).collect::<Vec<_>>()).map_err(|e| err_name(&e))?;
+                let by_repeat = b.with_int_values(std::iter::repeat_n(7i64, announce)).map(|_| ()).map_err(|e| err_name(&e));
+                let b = PushState::builder().with_max_stack_size(cap).with_instruction_step_limit(1).with_int_values((0..loaded as i64).collect::<Vec<_>>()).map_err(|e| err_name(&e))?;
+                let by_range = b.with_int_values((0..announce).map(|x| x as i64)).map(|_| ()).map_err(|e| err_name(&e));
+                Ok::<_, &'static str>((by_repeat, by_range))
+            });
+            let ok = matches!(&r, Ok(Ok((Err("Overflow"), Err("Overflow")))));
+            if !ok {
+                let observed = match &r { Ok(x) => format!("{x:?}"), Err(_) => "panic".to_string() };
+                report("overflow-boundary", false, json!({"stack": format!("int ({what})"), "max_size": cap.to_string(), "already_loaded": loaded, "values_announced_by_an_exact_size_iterator": announce.to_string(), "expected": "Err(Overflow) from both supplies", "observed": observed}));
+                return;
+            }
+        }
+    }
     report("overflow-boundary", true, json!({"cases": cases}));
 }
 
